@@ -552,6 +552,14 @@ func runC06(c *core.Ctx) core.Meta {
 							if ph, isPhi := r.(*ssa.Phi); isPhi && ph.Block() == l.header && validAccumulator(ph, l) {
 								ok = true // seeds a lane-mask accumulator (each lane updates only its own bit)
 							}
+							if ok {
+								// x & (1 << i) is 0 or 1<<i: testing it against any other constant singles out lane 0
+								if bad := laneBitBadCompare(r); bad != nil {
+									stRead.Instances++
+									stRead.Ob(false)
+									c.ReportAt("R06.flow", fn, bad.Pos(), mname+"-bit-compared-with-constant", "lane i's bit of "+mname+"() is isolated as mask & (1<<i), whose value is 0 or 1<<i, and then compared with a non-zero constant ("+core.InstrString(bad)+"): the test can only succeed for lane 0, so lanes are not treated alike")
+								}
+							}
 							stRead.Ob(ok)
 							if !ok {
 								c.ReportAt("R06.flow", fn, r.Pos(), mname+"-use", "inside the lane loop "+mname+"() is used other than through lane i's own bit ("+core.InstrString(r)+"): lane i's result depends on other lanes' bits")
@@ -1138,4 +1146,48 @@ func laneAsData(v ssa.Value, l *laneLoop, seen map[ssa.Value]bool, depth int) ss
 		}
 	}
 	return nil
+}
+
+// laneBitBadCompare: r is mask & (1<<i); returns a comparison of that value with a non-zero constant.
+func laneBitBadCompare(r ssa.Instruction) ssa.Instruction {
+	bo, ok := r.(*ssa.BinOp)
+	if !ok || bo.Op != token.AND {
+		if cv, isC := r.(*ssa.Convert); isC && cv.Referrers() != nil {
+			for _, rr := range *cv.Referrers() {
+				if bad := laneBitBadCompare(rr); bad != nil {
+					return bad
+				}
+			}
+		}
+		return nil
+	}
+	var walk func(v ssa.Value, depth int) ssa.Instruction
+	walk = func(v ssa.Value, depth int) ssa.Instruction {
+		if v.Referrers() == nil || depth > 3 {
+			return nil
+		}
+		for _, rr := range *v.Referrers() {
+			switch t := rr.(type) {
+			case *ssa.BinOp:
+				if t.Op == token.EQL || t.Op == token.NEQ {
+					other := t.X
+					if other == v {
+						other = t.Y
+					}
+					if k, isC := core.ConstInt(other); isC && k != 0 {
+						return t
+					}
+					if ku, isC := core.ConstUint(other); isC && ku != 0 {
+						return t
+					}
+				}
+			case *ssa.Convert:
+				if bad := walk(t, depth+1); bad != nil {
+					return bad
+				}
+			}
+		}
+		return nil
+	}
+	return walk(bo, 0)
 }
